@@ -442,6 +442,51 @@ PROPS = {
         assumptions=["the Lean model GM.Spec.CommonMark is a correct reading of CommonMark 0.31.2 on wellFormed trees (it is the specification side of the comparison)",
                      "GM.Model.Writer models defaultWriter.Write (tied by component render under C10)"],
     ),
+    "C05": dict(
+        level="other",
+        module="GM.Props.C05",
+        claim="Partial, by design. Clause (a) (Parent / sibling / FirstChild / LastChild / ChildCount agree with the actual child sequence, no node "
+              "twice) is kernel-checked for EVERY sequence of calls of the seven ast.Node mutators within the proviso of C13 (no node inserted into "
+              "its own subtree or relative to itself, no nil dereference): parser_traces_refine (the replayed pointer heap is exactly the "
+              "list-of-children forest and every accessor returns what the forest says). That the PARSER stays within that proviso and builds its "
+              "tree only through those calls is not assumed but checked on every parse: a verif-tagged hook (ast.VerifTrace) logs each top-level "
+              "mutator call of a real Parse; the log is replayed on the Lean heap model with the proviso DECIDED before every call "
+              "(preB_sound, preCheck_violated_exact, preCheck_fuel_suffices; checked_replay_ok / _violated / _never_stuck: the replay answers ok "
+              "iff the trace is within the proviso, and then its final heap represents the forest) and the model's final heap is compared with the "
+              "real final tree. Clause (c) pieces proved: text segments left by the inline driver loop lie inside the block's lines in increasing "
+              "order (inline_text_segments_monotone), reader / block-reader positions lie inside the source (reader_positions_in_range, "
+              "blockReader_positions_in_range). Searched, not proved: clauses (b) kinds-in-places and (c) for block lines and for Text nodes re-cut "
+              "by the built-in inline parsers - the Lean-defined predicate GM.Spec.AstWF.wfAst (the formal statement of C05) and an independent Go "
+              "checker are evaluated on every parsed tree (component wfast).",
+        note="Trusted: Lean kernel (+ propext, Classical.choice, Quot.sound); the hand transcription GM.Model.AstHeap of ast/ast.go (tied by C13's "
+             "components ast/walk and, here, by replaying real parser traces); the hook ast/verif_trace.go (build tag verif; reports a call iff no "
+             "other mutator is among its 16 nearest caller frames - the mutators call each other); node identity = Go interface equality; the "
+             "harness's reading of the real tree through the public accessors; Driver.AstTrace's token parser (all ids checked < N, which is the "
+             "OpIn hypothesis of the theorems; fuel 2N+2 > N). SortChildren is replayed with a comparator that orders the children as the real "
+             "call left them (the comparator is user code), so for that call the tie checks the link fields, not the order. RemoveChildren is "
+             "never called by the parser or the built-in extensions (0 traces), so it is tied only by C13's component ast.",
+        technique="Lean 4 refinement theorems (C13 development) + proved-exact decidable proviso check + replay of recorded real API traces on the "
+                  "compiled model, differential comparison of the final heap with the real tree; Lean-defined well-formedness predicate evaluated on "
+                  "every parsed tree with an independent Go checker; re-exported reader / inline-loop theorems",
+        components=["asttrace", "wfast", "inlines", "blocks"],
+        tie=["asttrace"],
+        explanation="asttrace: one case = (configuration, document). The document is parsed under a global lock with ast.VerifTrace set to a recorder; "
+                    "nodes are numbered by first appearance; the call list (a/b/f/r/d/x/s tokens) goes to the driver (asttrace run N root ops), which "
+                    "replays it from the empty heap with GM.AstTrace.runChecked and prints the reachable part of the final heap in depth-first order "
+                    "(id:parent:ChildCount:children forward:children backward); the harness prints the real tree in the same format from Parent/ChildCount/"
+                    "FirstChild/NextSibling/LastChild/PreviousSibling and the two lines must be identical. Independently of the model the harness "
+                    "evaluates the proviso on the real tree at every call (nil, reference == insertee, insertee among the target's ancestors) and reports "
+                    "C05/mutator-precondition-violated with the document and call. Scope: all strings of length <= 4 over {a, space, LF, -, *, |, [, ], "
+                    "`, :, >, =} under the all-extensions configuration (exhaustive), all corpus documents x 8 corner configurations, regression documents "
+                    "(Setext fallback '- Foo\\n--', tables, escaped-pipe code spans, footnotes incl. SortChildren, definition lists, link reference "
+                    "definitions), and the random document stream under random lattice configurations. wfast: wfAst on every tree (see its rule). "
+                    "The theorems of GM.Props.C05 are listed with their meaning in notes/status_C05.md.",
+        assumptions=["every call passes the receiver as `self` and no concrete node type overrides the BaseNode link methods (as for C13; a violation would "
+                     "show as a replay difference)",
+                     "no code outside package ast writes link fields directly (Gen.Facts: no SetParent/SetNextSibling/SetPreviousSibling call outside ast; "
+                     "a bypass would show as a replay difference)",
+                     "clauses (b) and (c) for the block and inline parsers are covered by search (wfast), not by proof"],
+    ),
 }
 
 # Properties not claimed yet, with the reason shown in MANIFEST.not_applicable.
